@@ -75,6 +75,11 @@ func runC31(r *Run) {
 	}
 	pipelined := r.W.Pick(2) == 0 // login bytes in the same write as the handshake
 	fault := r.F.Pick(6)          // 4: client reset mid-stream, 5: backend reset mid-stream
+	// a quiet period longer than any proxy read timeout, in the middle of the client's stream
+	idleAt, idle := -1, time.Duration(0)
+	if r.W.Pick(4) == 0 && nC > 1 {
+		idleAt, idle = 1+r.W.Pick(nC-1), time.Duration(31+r.W.Pick(90))*time.Second
+	}
 	window := []int{0, 0, 1, 64, 4096}[r.F.Pick(5)]
 	var be *liteBackendConn
 	backendDone := false
@@ -107,6 +112,7 @@ func runC31(r *Run) {
 	}
 	clientDone := false
 	var sent, attempted []byte
+	var writeErr error
 	w.s.GoNamed("lclient", func() {
 		defer func() { clientDone = true }()
 		simrt.Go(func() { cl.readAll() })
@@ -133,9 +139,14 @@ func runC31(r *Run) {
 				cl.conn.Reset()
 				return
 			}
+			if i+(len(c2s)-len(rest)) == idleAt {
+				r.Probe("idle_longer_than_read_timeout")
+				simrt.Sleep(idle, "c31.idle")
+			}
 			r.Op("c2s")
 			attempted = append(attempted, b...)
 			if _, err := cl.conn.Write(b); err != nil {
+				writeErr = err
 				return
 			}
 			sent = append(sent, b...)
@@ -143,7 +154,7 @@ func runC31(r *Run) {
 		}
 		simrt.Sleep(300*time.Millisecond, "c31.stay")
 	})
-	why := w.s.RunUntil(60*time.Second, func() bool { return clientDone && (be == nil || backendDone) })
+	why := w.s.RunUntil(60*time.Second+idle, func() bool { return clientDone && (be == nil || backendDone) })
 	if why == "steps" {
 		r.Inconclusive("step budget exhausted")
 		return
@@ -158,6 +169,10 @@ func runC31(r *Run) {
 	}
 	got := be.Recv
 	lossy := fault >= 4
+	if writeErr != nil && !lossy {
+		r.Fail("forwarding-ended-by-proxy", fmt.Sprintf("idle=%v", idle > 0), "nobody reset or closed the link, yet the client's write failed with %v after %d forwarded bytes (quiet period %v): the proxy ended the forwarding", writeErr, len(sent), idle)
+		return
+	}
 	// 1. optional PROXY v2 header
 	if proxyProto {
 		sigv2 := []byte("\r\n\r\n\x00\r\nQUIT\n")
